@@ -1082,14 +1082,38 @@ task *stream_look_specific(struct task_stream *self, queue_t q, isolation_type i
     g_takes++; g_taken = (task *)(((uintptr_t)g_takes + 1) << 4); if (g_me_holds && nondet_bool()) g_size--;          /* found at the back: popped; elsewhere: overwritten with nullptr */
     return g_taken;
 }
-#define LOOP_pop_specific_1 __CPROVER_assigns(idx, result, TS.population, g_me_holds, g_cur_held, g_cur_lane, g_tracked_done, g_size, g_acquires, g_popw, g_takes, g_taken) \
-  __CPROVER_loop_invariant(result == NULL && g_takes == 0 && !g_cur_held && !g_me_holds && idx < TS.N)
+/* "every lane is visited": g_lane is ONE arbitrary lane.  The visits (counted where a lane's population bit is tested) go round the lanes one lane at a time; the direction
+   (POPSPEC_BWD / POPSPEC_FWD, read off the sliced text by spec.py) only selects which invariant is offered to CBMC.  The k-th visit looks at lane g_start -+ k, so lane g_lane
+   has been visited iff its distance from the first lane visited, in the direction of travel, is below the number of visits.  g_vm counts the visits modulo 2^32 (N divides
+   it), g_vs saturates at N. */
+static unsigned g_lane, g_vm, g_vs, g_start; static bool g_seen, g_last_empty;
+#define LMASK (TS.N - 1)
+#ifdef POPSPEC_FWD
+#define DIST_LANE ((g_lane - g_start) & LMASK)
+#define LANE_AT(k) ((g_start + (k)) & LMASK)
+#else
+#define DIST_LANE ((g_start - g_lane) & LMASK)
+#define LANE_AT(k) ((g_start - (k)) & LMASK)
+#endif
+#define LOOP_pop_specific_1 __CPROVER_assigns(idx, result, TS.population, g_me_holds, g_cur_held, g_cur_lane, g_tracked_done, g_size, g_acquires, g_popw, g_takes, g_taken, g_vm, g_vs, g_start, g_seen, g_last_empty) \
+  __CPROVER_loop_invariant(result == NULL && g_takes == 0 && !g_cur_held && !g_me_holds && idx < TS.N) \
+  __CPROVER_loop_invariant(g_vs <= TS.N && (g_vs < TS.N ==> g_vm == g_vs)) \
+  __CPROVER_loop_invariant(g_vs == 0 ? idx == __CPROVER_loop_entry(idx) : (g_start == __CPROVER_loop_entry(idx) && idx == LANE_AT(g_vm))) \
+  __CPROVER_loop_invariant(g_seen == (g_vs > 0 && DIST_LANE < g_vs))
 #include "stream_empty.inc"
+static bool stream_empty_noted(struct task_stream *self) { g_last_empty = stream_empty(self); return g_last_empty; }
+static bool is_bit_set_noted(population_t val, int pos) { if (g_vs == 0) g_start = (unsigned)pos; if ((unsigned)pos == g_lane) g_seen = true; g_vm++; if (g_vs < TS.N) g_vs++; return is_bit_set(val, pos); }
+#define stream_empty(s) stream_empty_noted(s)
+#define is_bit_set(v, p) is_bit_set_noted((v), (p))
 #include "stream_pop_specific.inc"
+#undef stream_empty
+#undef is_bit_set
 unsigned IN_hint;
 void h_pop_specific(void) {
     mk_stream(); unsigned hint = IN_hint = nondet_unsigned();
+    g_lane = nondet_unsigned(); __CPROVER_assume(g_lane < TS.N); g_vm = g_vs = 0; g_seen = g_last_empty = false;
     task *r = stream_pop_specific(&TS, &hint, g_isoarg);
+    OBLIGATION(r != NULL || g_last_empty || g_seen, "C01.stream: pop_specific gives up without a task only after it has visited EVERY lane (or found the stream empty): a task of the wanted isolation level waiting in any lane is within reach of the waiter - no lane is permanently skipped");
     OBLIGATION(!g_cur_held, "C01.stream: no lane mutex is held when pop_specific returns");
     OBLIGATION(g_takes <= 1 && r == (g_takes == 1 ? g_taken : (task *)NULL), "C01.once: pop_specific takes at most one task out of the lanes, and the task it took is the one it returns - a task taken out of a lane is never dropped");
     VACUITY_CASE(r != NULL && g_tracked_done, "taken from the tracked lane"); VACUITY_CASE(r == NULL && g_acquires > 2, "several lanes searched in vain");
